@@ -9,6 +9,9 @@ explicit configuration data by the Lean driver only):
          | err LexicalError <line> <col>
   tokv (same request)     -> ok <name>:<value>;...          diagnostic only (names/values are not C04)
   got  <s|l> <text> sl sc el ec   -> ok <text> | err AssertionError       (get_orig_text of any span)
+  gseq <text>|<text>|… <ti.sl.sc.el.ec;…>  -> ok <text>;…   a SEQUENCE of get_orig_text calls on str texts of equal
+        length; the adapter builds every text afresh inside the call ("\n".join(lines)) and releases it at once, so
+        that consecutive calls see different str objects at (very likely) the same address; the model has no memory
   ptree cfg=<i> g=<j> smart=<0|1> <spanKinds> <synonyms> <keywords> <endName> <s|l|t> <text> <re-table>
        <names> <groups> <skip> <start> <prods>
         -> ok sl.sc.el.ec/<get_orig_text>;... (all nodes of the raw tree, pre-order) | err ParsingError <l> <c>
@@ -148,8 +151,15 @@ GRAMMARS = [
     {"E": [("A", "S"), ("B", "N")], "A": [("W", "OPT", "W")], "B": [("W", "OPT")], "OPT": [("N", "S"), ()]},
     {"E": [("P", "Q", "E"), ()], "P": [("W", "W", "S"), ("W", "N"), ()], "Q": [("W", "S"), ("W",), ("N",)]},
     {"E": [("X", "Y")], "X": [("W", "N", "X"), ()], "Y": [("W", "N", "S"), ("W", "S"), ()]},   # fails two tokens late
+    # --- the fallback after the roll-back is a NON-EMPTY production all of whose children match nothing (nullable
+    # non-terminals), one and two levels deep: the node has children, no token, and a failed attempt behind it
+    {"E": [("LABEL", "W", "N")], "LABEL": [("W", "S"), ("OPT",)], "OPT": [("S",), ()]},
+    {"E": [("LABEL", "ST", "E"), ()], "LABEL": [("W", "S"), ("M",)], "M": [("OPT", "OPT")], "OPT": [("S",), ()],
+     "ST": [("W", "N"), ("N",)]},
+    {"E": [("X", "W", "N", "E"), ()], "X": [("W", "N", "S"), ("W", "S"), ("P", "Q")], "P": [("S", "S"), ()],
+     "Q": [("R",)], "R": [("S",), ()]},
 ]
-BACKTRACKING = (9, 10, 11, 12, 13)
+BACKTRACKING = (9, 10, 11, 12, 13, 14, 15, 16)
 
 
 def _names(cfg):
@@ -377,6 +387,17 @@ def impl(case):
                 sl, sc, el, ec = map(int, f[3:7])
                 e = ll.TElement("X", "v", start_pos=ll.SrcPos("t", sl, sc), end_pos=ll.SrcPos("t", el, ec))
                 out.append("ok " + enc_str(e.get_orig_text(text)))
+            elif f[0] == "gseq":
+                parts = [_dec_input("s", t).split("\n") for t in f[1].split("|")]
+                rs = []
+                for c in f[2].split(";"):
+                    ti, sl, sc, el, ec = map(int, c.split("."))
+                    e = ll.TElement("X", "v", start_pos=ll.SrcPos("t", sl, sc), end_pos=ll.SrcPos("t", el, ec))
+                    try:       # the text exists only during the call
+                        rs.append(enc_str(e.get_orig_text("\n".join(parts[ti]))))
+                    except Exception as x:
+                        rs.append("!" + type(x).__name__)
+                out.append("ok " + ";".join(rs))
             elif f[0] in ("tree", "ptree"):
                 ci, gi, smart = (int(x.split("=")[1]) for x in f[1:4])
                 text = _dec_input(f[9], f[10]) if f[0] == "tree" else _dec_input(f[8], f[9])
@@ -491,6 +512,10 @@ def make_case(params, meta=None):
     lines = ["tok cfg=%d %s %s %s" % (ci, cf, inp, tbl), "tokv cfg=%d %s %s %s" % (ci, cf, inp, tbl)]
     for sp in params.get("gots", []):
         lines.append("got %s %d %d %d %d" % ((inp,) + tuple(sp)))
+    gs = params.get("gseq")
+    if gs:
+        lines.append("gseq %s %s" % ("|".join(enc_str(t) for t in gs["texts"]),
+                                     ";".join(".".join(map(str, c)) for c in gs["calls"])))
     m = dict(meta or {})
     if gi is not None and not any(isinstance(v, tuple) for v in GRAMMARS[gi].values()):
         # the model builds the parser from the productions and parses by itself (LL model of C01 + positions)
@@ -586,6 +611,25 @@ def oracle(case, replies):
     def valid(pos):
         return 1 <= pos[0] <= len(olines) and 1 <= pos[1] <= len(olines[pos[0] - 1]) + 1
 
+    # ---- sequences of get_orig_text calls with freshly built texts: every answer comes from the call's own text
+    for l, rep in zip(case["lines"], replies):
+        if l.startswith("gseq "):
+            f = l.split()
+            txts = [_dec_input("s", t) for t in f[1].split("|")]
+            answers = rep[3:].split(";") if rep.startswith("ok ") else []
+            calls = f[2].split(";")
+            if len(answers) != len(calls):
+                return "orig-text-sequence: %s" % rep[:60]
+            for c, a in zip(calls, answers):
+                ti, sl, sc, el, ec = map(int, c.split("."))
+                tl = txts[ti].split("\n")
+                if not (1 <= sl <= el <= len(tl) and 1 <= sc <= len(tl[sl - 1]) + 1 and 1 <= ec <= len(tl[el - 1]) + 1
+                        and (sl, sc) <= (el, ec)):
+                    continue
+                of = _offsets(tl)
+                if a != enc_str(txts[ti][of[sl - 1] + sc - 1:of[el - 1] + ec - 1]):
+                    return ("orig-text-sequence: get_orig_text(%r) of span %s returned %s, not the text between the "
+                            "positions (a text of an earlier call?)" % (txts[ti], ((sl, sc), (el, ec)), a))
     # ---- lexical errors
     try:
         toks, err = list(_tokenizer(p["cfg"]).tokenize(text, "t")), None
@@ -735,6 +779,22 @@ def oracle(case, replies):
             if _orig(e, text) != enc_str(full[o(a):o(b)]):
                 return "node-orig-text: get_orig_text of node %s is not the text between its positions" % e.name
         res[smart] = (_shape(root), spans)
+        if kind == "s" and smart == 1 and p.get("gseq") and len(p["gseq"]["texts"]) > 1:
+            # elements of two different parses, each asked with a freshly built copy of its own text, alternately
+            alt = p["gseq"]["texts"][1]
+            try:
+                root2 = parser.parse(alt, do_cleanup=False, src_name="t")
+            except ll.Error:
+                root2 = None
+            if root2 is not None:
+                al = alt.split("\n")
+                aoff = _offsets(al)
+                for a, b in zip(_walk(root), _walk(root2)):
+                    (s1, e1), (s2, e2) = a.span, b.span
+                    if a.get_orig_text("\n".join(olines)) != full[o(s1):o(e1)]:
+                        return "orig-text-sequence: node %s of the first parse got the text of another call" % a.name
+                    if b.get_orig_text("\n".join(al)) != alt[aoff[s2[0] - 1] + s2[1] - 1:aoff[e2[0] - 1] + e2[1] - 1]:
+                        return "orig-text-sequence: node %s of the second parse got the text of another call" % b.name
         if kind == "s" and smart == 1:
             try:
                 root_l = parser.parse(_vis_lines(kind, text), do_cleanup=False, src_name="t")
@@ -881,6 +941,28 @@ def _gen_gots(rng, lines, n):
     return out
 
 
+_ROT = {**{chr(97 + i): chr(97 + (i + 1) % 26) for i in range(26)}, **{str(i): str((i + 1) % 10) for i in range(10)}}
+
+
+def _gen_gseq(rng, text):
+    """texts of the same length as `text` (letters/digits rotated; lines in reverse order) and a sequence of calls
+    with well-formed spans that alternates between them"""
+    texts = [text, "".join(_ROT.get(c, c) for c in text)]
+    ls = text.split("\n")
+    if len(ls) > 1 and ls[::-1] != ls:
+        texts.append("\n".join(ls[::-1]))
+    calls = []
+    for k in range(rng.choice([4, 6, 8, 10])):
+        ti = k % len(texts) if rng.random() < 0.8 else rng.randrange(len(texts))
+        tl = texts[ti].split("\n")
+        sl = rng.randrange(1, len(tl) + 1)
+        el = min(len(tl), sl + rng.choice([0, 0, 1, 1, 2, 3]))
+        sc = rng.randrange(1, len(tl[sl - 1]) + 2)
+        ec = rng.randrange(sc if el == sl else 1, len(tl[el - 1]) + 2)
+        calls.append([ti, sl, sc, el, ec])
+    return {"texts": texts, "calls": calls}
+
+
 def gen_cases(rng, tier):
     n = 12000 if tier == "quick" else 250000
     if tier != "quick":
@@ -899,8 +981,11 @@ def gen_cases(rng, tier):
         kind = rng.choice("sssslllt")
         text = s if kind == "s" else s.split("\n")
         olines = text.split("\n") if kind == "s" else text
-        yield make_case({"cfg": ci, "kind": kind, "text": text, "g": gi,
-                         "gots": _gen_gots(rng, olines, rng.choice([0, 1, 2]))}, meta)
+        params = {"cfg": ci, "kind": kind, "text": text, "g": gi,
+                  "gots": _gen_gots(rng, olines, rng.choice([0, 1, 2]))}
+        if kind == "s" and len(text) >= 3 and rng.random() < 0.3:
+            params["gseq"] = _gen_gseq(rng, text)
+        yield make_case(params, meta)
 
 
 def corpus():
@@ -944,10 +1029,18 @@ def shrink(case):
         q = dict(p)
         q["text"] = "\n".join(ls) if kind == "s" else ls
         q["gots"] = []
+        if q["text"] != p["text"]:
+            q.pop("gseq", None)
         q.update(kw)
         return make_case(q, case.get("meta"))
     if p.get("gots"):
         yield mk(lines)
+    if p.get("gseq"):
+        yield mk(lines, gseq=None)
+        g = p["gseq"]
+        for i in range(len(g["calls"])):
+            if len(g["calls"]) > 2:
+                yield mk(lines, g=None, gseq={"texts": g["texts"], "calls": g["calls"][:i] + g["calls"][i + 1:]})
     if p.get("g") is not None:
         yield mk(lines, g=None)
     for i in range(len(lines)):
@@ -1003,6 +1096,9 @@ def tags(case, replies):
     for l, rep in zip(case["lines"], replies):
         if l.startswith("got "):
             yield "got:" + rep.split()[0] + ("" if rep.startswith("ok") else ":" + rep.split()[1])
+        if l.startswith("gseq "):
+            yield "gseq:texts=%d" % (l.split()[1].count("|") + 1)
+            yield "gseq:calls=%d" % (l.split()[2].count(";") + 1)
         if l.startswith("ptree "):
             yield "ptree:" + (" ".join(rep.split()[:2]) if rep.startswith("err") else "ok")
             if rep.startswith("err ParsingError") and r.startswith("ok") and rep.split()[2:] != r[3:].split(";")[0].split("/")[0].split(".")[:2]:
@@ -1027,7 +1123,7 @@ LEVEL_TEXT = (
     "shape (node_span), get_orig_text of nodes, LexicalError at the first and only reachable unmatched character "
     "(line 1-based, column 0-based) and its converse, ParsingError.src_pos = start of a token, totality (fuel) of the "
     "tokenizer model. Model = code is established by a differential run of the compiled model against the real "
-    "tokenizer, get_orig_text and parser (7 configurations incl. one where BOM / NUL / zero-width characters are blanks and combining marks / astral characters are letters, texts with such characters at the start of the text, of a line, inside tokens, '\\r' and '\\r\\n' line ends; 14 grammars incl. 5 that roll back into empty "
+    "tokenizer, get_orig_text and parser (7 configurations incl. one where BOM / NUL / zero-width characters are blanks and combining marks / astral characters are letters, texts with such characters at the start of the text, of a line, inside tokens, '\\r' and '\\r\\n' line ends; 17 grammars incl. 8 that roll back into empty / all-nullable "
     "alternatives and a ProdSequence, both smart_factorization values, str / list / tuple input); the oracle restates "
     "the property on the real objects.")
 LEVEL_NOTE = (
